@@ -182,11 +182,10 @@ pub fn walk(h: &History) -> (Vec<ExpCall>, Vec<PlanEntry>) {
                                 stop = true;
                             }
                             RevOut::Completion => {
+                                // same rule as the simulated terminal: a ledger entry with that receipt goes first,
+                                // the separate dangling pre-authorisation only if the ledger holds none
                                 if let Some(i) = ledger.iter().position(|x| *x == r) {
                                     ledger.remove(i);
-                                    if dangling == Some(r) {
-                                        dangling = None;
-                                    }
                                 } else if dangling == Some(r) {
                                     dangling = None;
                                 }
